@@ -3,6 +3,7 @@ import Chewing.Proofs.CliSqlOrder
 import Chewing.Proofs.CliAccept
 import Chewing.Proofs.CliRaw
 import Chewing.Proofs.CliLeaf
+import Chewing.Proofs.CliTrieLink
 /-!
 # C20 — The dictionary compiler and dumper are inverse on well-formed sources
 
@@ -629,6 +630,120 @@ theorem leaf_sort_multi_unique {ps qs : List PF} (hm : ∀ p ∈ ps, p.1.length 
     (hsorted : qs.Pairwise (fun a b => phraseLess b a = false)) : qs = phraseSort ps :=
   phraseSort_multi_unique hm hperm hsorted
 
+/-! ## 6. linked: the trie back end is C11's byte-level file
+
+Sections 1–5 use the entry-list model of the trie back end (`trieBuild`, `trieLookup`, `trieEntries`).
+What that model assumes of the trie file — (a) insert = replace the same (key, phrase text) in place, else
+append; (c) lookup = the leaf, stably sorted by the comparator of `write`; (d) no 16-bit overflow — is
+derived here from C11's theorems about the **bytes** (`Proofs/CliTrieLink.lean`: `C11.builder_is_map` /
+`insert_semantics`, `lookup_correct`, `order_documented` through `sortLeaf`, `entries_correct`,
+`writes_within_limits`), for records valid for the Rust types (`ValidRec`) and files within the limits of
+the format (`Fits`, or simply: `write` returned `Ok`).  Of (b), the enumeration, C11 proves the *set* (each
+(key, phrase) once, leaves in written order) but the order of the keys only up to permutation; the exact
+depth-first order `trieOrder` stays validated by correspondence. -/
+
+open CliTrieLink in
+/-- **the trie back end of the model is the concrete file**: for the records the compiler inserts, inside
+    the limits `TrieBuilder::write` succeeds (no silent 16-bit truncation: outside them it fails), and
+    for whatever bytes it wrote: `Trie::new` opens them with the metadata given, the real reader's
+    `lookup_all_phrases(key)` is the model's `dictLookup .trie` (same phrases, same frequencies, same
+    order) for every key of non-zero syllables, and `entries()` yields exactly the records of the model's
+    `entries .trie` — by `dump_lists_last_records`, the last record of every (syllables, phrase) -/
+theorem trie_backend_linked (info : TrieCodec.Info) (hinfo : TrieCodec.ValidInfo info) (rs : List Rec)
+    (hv : ∀ r ∈ rs, ValidRec r) :
+    ((TrieCodec.Builder.ofEntries info (rs.map toEntry)).Fits →
+      ((TrieCodec.Builder.ofEntries info (rs.map toEntry)).write).isSome = true) ∧
+    ∀ bytes, (TrieCodec.Builder.ofEntries info (rs.map toEntry)).write = some bytes →
+      ∃ tr, TrieCodec.openTrie bytes = some tr ∧ TrieCodec.about tr = info ∧
+        (∀ k, C11.ValidKey k → (TrieCodec.lookupAll tr k .standard).map ofPhrase = dictLookup .trie rs k) ∧
+        ∃ ents, TrieCodec.entries tr = .ok ents ∧ ∀ x, x ∈ ents.map ofEntry ↔ LastWins rs x := by
+  refine ⟨C11.writes_within_limits _, fun bytes hw => ?_⟩
+  obtain ⟨tr, h1, h2, h3, ents, h4, h5⟩ := trie_backend_is_C11 info hinfo rs hv bytes hw
+  exact ⟨tr, h1, h2, h3, ents, h4, fun x => (h5 x).trans (dump_lists_last_records .trie rs x)⟩
+
+open CliTrieLink in
+/-- the model's leaf order is C11's `sortLeaf` (the comparator regenerated from the source as
+    `Gen.trieMixedCmp` is C11's `phraseLt` on Rust strings, UTF-8 being order preserving) -/
+theorem leaf_sort_is_C11 (ps : List Phrase) (hv : ∀ p ∈ ps, ∀ c ∈ p.text, Der.IsScalar c) :
+    phraseSort (ps.map ofPhrase) = (TrieCodec.sortLeaf ps).map ofPhrase := phraseSort_map ps hv
+
+open CliTrieLink in
+/-- **`slice::sort_by` is not assumed to be an insertion sort any more** — for *every* leaf of Rust
+    strings, mixed ones included: the comparator is a total preorder (since the trie fix ddfe893, C11's
+    `comparator_total_preorder`), so any arrangement that is sorted by it and stable is the model's leaf
+    (`leaf_sort_single` / `leaf_sort_multi_unique` were the two special cases provable before) -/
+theorem leaf_sort_stable_unique (ps r : List PF) (hps : ∀ p ∈ ps, ValidPF p) (hr : ∀ p ∈ r, ValidPF p)
+    (hs : StableSort.Sorted phraseLess r) (hst : StableSort.StableOf phraseLess ValidPF ps r) : r = phraseSort ps :=
+  leaf_sort_any_stable ps r hps hr hs hst
+
+open CliTrieLink in
+theorem entries_valid {ins : List Rec} (hv : ∀ r ∈ ins, ValidRec r) : ∀ r ∈ entries .trie ins, ValidRec r := by
+  intro r hr
+  obtain ⟨pre, post, e, _⟩ := (dump_lists_last_records .trie ins r).mp hr
+  exact hv r (by rw [e]; simp)
+
+open CliTrieLink in
+/-- **recompiled_lookup_trie for the concrete files**: `bytes₁` written from the compiler's records,
+    `bytes₂` written from the records read back from the dump (= the model's `entries .trie`): both open,
+    and every key of non-zero syllables looks up the same phrases with the same frequencies in the same
+    order in the two **byte-level** files -/
+theorem recompiled_lookup_trie_linked (info : TrieCodec.Info) (hinfo : TrieCodec.ValidInfo info) (ins : List Rec)
+    (hv : ∀ r ∈ ins, ValidRec r) (bytes₁ bytes₂ : Der.Bytes)
+    (hw₁ : (TrieCodec.Builder.ofEntries info (ins.map toEntry)).write = some bytes₁)
+    (hw₂ : (TrieCodec.Builder.ofEntries info ((entries .trie ins).map toEntry)).write = some bytes₂) :
+    ∃ tr₁ tr₂, TrieCodec.openTrie bytes₁ = some tr₁ ∧ TrieCodec.openTrie bytes₂ = some tr₂ ∧
+      (∀ k, C11.ValidKey k → (TrieCodec.lookupAll tr₂ k .standard).map ofPhrase =
+        (TrieCodec.lookupAll tr₁ k .standard).map ofPhrase) ∧
+      ∃ ents₁ ents₂, TrieCodec.entries tr₁ = .ok ents₁ ∧ TrieCodec.entries tr₂ = .ok ents₂ ∧
+        ∀ x, x ∈ ents₂.map ofEntry ↔ x ∈ ents₁.map ofEntry := by
+  obtain ⟨tr₁, o1, _, l1, e1, he1, m1⟩ := trie_backend_is_C11 info hinfo ins hv bytes₁ hw₁
+  obtain ⟨tr₂, o2, _, l2, e2, he2, m2⟩ := trie_backend_is_C11 info hinfo _ (entries_valid hv) bytes₂ hw₂
+  refine ⟨tr₁, tr₂, o1, o2, ?_, e1, e2, he1, he2, ?_⟩
+  · intro k hk
+    rw [l1 k hk, l2 k hk]
+    exact recompiled_lookup_trie ins k
+  · intro x
+    rw [m1 x, m2 x]
+    have : entries .trie (entries .trie ins) = entries .trie ins := trie_roundtrip (trieBuild_inv ins)
+    rw [this]
+
+open CliTrieLink in
+/-- **wellformed_source_roundtrip for the concrete trie files.**  A source file of well-formed free-style
+    lines (as in `wellformed_source_roundtrip`) whose records are valid for the Rust types; `bytes₁` is
+    what `TrieBuilder::write` produced for the compiled records, `bytes₂` what it produced when the dump
+    of the first dictionary was compiled again.  Then: the source compiles with nothing reported; the
+    first **byte-level** file opens and its `entries()` yields exactly the last record of every
+    (syllables, phrase) of the source; the dump text compiles again (nothing reported) to exactly those
+    records; the second byte-level file opens, enumerates the same records, and answers every exact
+    lookup of a key of non-zero syllables with the same phrases in the same order as the first. -/
+theorem wellformed_source_roundtrip_linked (info : TrieCodec.Info) (hinfo : TrieCodec.ValidInfo info)
+    (f : Flags) (hdr : Text) (ls : List SrcLine)
+    (hok : ∀ l ∈ ls, l.OK f.delim) (hfile : ∀ t ∈ sourceLines f hdr ls, FileLine t)
+    (hv : ∀ r ∈ sourceRecs f ls, ValidRec r) (bytes₁ bytes₂ : Der.Bytes)
+    (hw₁ : (TrieCodec.Builder.ofEntries info ((sourceRecs f ls).map toEntry)).write = some bytes₁)
+    (hw₂ : (TrieCodec.Builder.ofEntries info ((entries .trie (sourceRecs f ls)).map toEntry)).write = some bytes₂) :
+    compileRun f (readLines (writeLines (sourceLines f hdr ls))) =
+        { reported := [], inserted := some (sourceRecs f ls) } ∧
+    compileRun f (readLines (writeLines (dump f.csv (entries .trie (sourceRecs f ls))))) =
+        { reported := [], inserted := some (entries .trie (sourceRecs f ls)) } ∧
+    ∃ tr₁ tr₂ ents₁ ents₂, TrieCodec.openTrie bytes₁ = some tr₁ ∧ TrieCodec.openTrie bytes₂ = some tr₂ ∧
+      TrieCodec.entries tr₁ = .ok ents₁ ∧ TrieCodec.entries tr₂ = .ok ents₂ ∧
+      (∀ x, x ∈ ents₁.map ofEntry ↔ LastWins (sourceRecs f ls) x) ∧
+      (∀ x, x ∈ ents₂.map ofEntry ↔ LastWins (sourceRecs f ls) x) ∧
+      ∀ k, C11.ValidKey k → (TrieCodec.lookupAll tr₂ k .standard).map ofPhrase =
+        (TrieCodec.lookupAll tr₁ k .standard).map ofPhrase := by
+  obtain ⟨h1, _, h3, _, _⟩ := wellformed_source_roundtrip .trie f hdr ls hok hfile
+  obtain ⟨tr₁, tr₂, o1, o2, hl, e1, e2, he1, he2, hm⟩ :=
+    recompiled_lookup_trie_linked info hinfo (sourceRecs f ls) hv bytes₁ bytes₂ hw₁ hw₂
+  obtain ⟨tr', o1', _, _, e1', he1', m1⟩ := (trie_backend_linked info hinfo (sourceRecs f ls) hv).2 bytes₁ hw₁
+  have et : tr' = tr₁ := Option.some.inj (o1'.symm.trans o1)
+  rw [et] at he1'
+  have ee : e1' = e1 := by
+    have := he1'.symm.trans he1
+    exact Outcome.ok.inj this
+  rw [ee] at m1
+  exact ⟨h1, h3, tr₁, tr₂, e1, e2, o1, o2, he1, he2, m1, fun x => (hm x).trans (m1 x), hl⟩
+
 /-! ## non-vacuity: concrete instances of the hypotheses -/
 
 /-- `測試 9318 ㄘㄜˋ ㄕˋ` -/
@@ -666,5 +781,18 @@ example : ¬ StrictLine 32 [28204, 35430, 32, 120] ∧ ¬ Undetected 32 false [2
   constructor
   · rintro ⟨r, hr, _⟩; rw [h1] at hr; cases hr
   · rintro ⟨r, hr, _⟩; rw [h2] at hr; cases hr
+
+/-- §6: the records of the sample source are valid for the Rust types, the concrete file is written (so
+    the hypotheses of `trie_backend_linked` / `recompiled_lookup_trie_linked` are met), and its byte-level
+    exact lookup is the model's -/
+example : ∀ r ∈ ([⟨[28204], 0, [10268]⟩, ⟨[28204, 35430], 9, [10268, 8708]⟩, ⟨[28204, 35430], 10, [10268, 8708]⟩] : List Rec),
+    CliTrieLink.ValidRec r := by
+  intro r hr
+  simp only [List.mem_cons, List.not_mem_nil, or_false] at hr
+  rcases hr with rfl | rfl | rfl <;> exact ⟨by decide, by decide, by decide⟩
+example : ((TrieCodec.Builder.ofEntries {} (([⟨[28204], 0, [10268]⟩, ⟨[28204, 35430], 9, [10268, 8708]⟩,
+    ⟨[28204, 35430], 10, [10268, 8708]⟩] : List Rec).map CliTrieLink.toEntry)).write).isSome = true := by decide
+/-- §6: a mixed leaf — the one-character phrase first, then by descending frequency, in both models -/
+example : phraseSort [([1, 2], 5), ([3], 1), ([4, 5], 7)] = [([3], 1), ([4, 5], 7), ([1, 2], 5)] := by decide
 
 end Chewing.C20
